@@ -410,6 +410,53 @@ def run(tier, seed, replay=None):
                                      'standard_grouping': text_of(paren_full(s_)),
                                      'implementation_grouping': text_of(paren_full(got)) if got and got[0] != 'exception' else str(got),
                                      'what': f'after `{dv["rule"]}` with `{dv["look"]}` next the parser does {dv["actual"]}, the standard levels say {dv["std"]}'})
+        # ---- the fragment could not be translated: search without the tables.  Every (finished construct, next operator) pair
+        # decides between two groupings of the same tokens; the standard levels say which; parse_sql shows what the parser does
+        if info is None:
+            fake = {'ops': [(tuple(k.split('_')), None) for k in STD_LEVEL]}
+            names_f = {}
+            for k in STD_LEVEL:
+                names_f[TEXT[k]] = k
+            lv_of = lambda r: {'UMINUS': (STD_NEG, False), 'UNOT': (STD_NOT, False), 'BETWEEN': (STD_BTW, False)}.get(r) or STD_LEVEL[r]
+            looks = sorted({k.split('_')[0] for k in STD_LEVEL}) + ['BETWEEN']
+            look_lv = {}
+            for k, v in STD_LEVEL.items():
+                look_lv.setdefault(k.split('_')[0], v[0])
+            look_lv['BETWEEN'] = STD_BTW
+            look_lv['NOT'] = 4            # NOT as a lookahead after an operand starts NOT IN / NOT LIKE
+            nfound = 0
+            for rule in list(STD_LEVEL) + ['UMINUS', 'UNOT', 'BETWEEN']:
+                for look in looks:
+                    rl, left = lv_of(rule)
+                    ll = look_lv[look]
+                    if rl == ll and not left:
+                        continue
+                    std = 'reduce' if (rl > ll or (rl == ll and left)) else 'shift'
+                    dv = {'rule': rule.replace('_', ' ') if rule in ('NOT_IN', 'NOT_LIKE', 'IS_NOT') and False else rule, 'look': look, 'std': std,
+                          'actual': 'shift' if std == 'reduce' else 'reduce'}
+                    try:
+                        s_, o_ = witness(dv, fake)
+                    except Exception:
+                        continue
+                    sql = 'select ' + text_of(s_)
+                    evaluations += 1
+                    try:
+                        got = shape_of_ast(parse_sql(sql, dialect).targets[0], names_f)
+                    except Exception:
+                        continue
+                    if got is None or got == s_:
+                        continue
+                    f = classify_dev(dialect, dv, findings)
+                    if f:
+                        R.known_finding(f'{f["id"]}: {f["what"]}')
+                    elif nfound < 4:
+                        nfound += 1
+                        R.violation({'dialect': dialect, 'sql': sql, 'rule': rule, 'lookahead': look,
+                                     'standard_grouping': text_of(paren_full(s_)), 'implementation_grouping': text_of(paren_full(got)),
+                                     'what': f'after `{rule}` with `{look}` next the parser does not group as the standard levels say ({std})',
+                                     'found_by': 'table-independent search (the precedence fragment could not be translated: ' + broken.what + ')'})
+            if nfound:
+                broken = None
         # ---- expression-level correspondence (implementation vs engine model vs standard)
         if info:
             allops = list(opidx.keys())
